@@ -544,7 +544,11 @@ class Engine:
         if isinstance(v, Lin):
             if v.c == {'T0': 1} and isinstance(s.T, Lin):
                 return ('t', v.k - s.T.k)
-            return ('l',) + v.key()
+            if v.c == {'AV0': 1} and v.k == 0 and s.acc > 1:
+                return ('av0',)     # the length the buffer came with (an anchor)
+            # constants relative to the input really left (AV0 - acc) and to the fill index (NB0 + w)
+            kk = v.k + v.c.get('AV0', 0) * s.acc - v.c.get('NB0', 0) * s.w
+            return ('l', kk, tuple(sorted(v.c.items())))
         if v is TOP:
             return ('T',)
         if isinstance(v, Byte):
@@ -1100,6 +1104,8 @@ class Engine:
             noroom = s.holds(s.room(), 'eq')
             look = (s.holds(s.room().add(-1), 'eq') and s.n == 3 and self.next_exists(s) and
                     s.eq(self.next_id(s), s.c) is True)
+            self.record('count', i, s.n != 4, 'the block is closed with a run of four copies open: its count byte is '
+                        'never written (the stream then carries four equal bytes without a count)', s)
             okf = (noroom or look) and s.n != 4
             self.record('full', i, okf, 'block declared full with room left in %s, %d cop%s of the run character stored, '
                         'next input byte %s' % (self._ivs(s, 'R0', s.w), s.n, 'y' if s.n == 1 else 'ies',
